@@ -9,7 +9,9 @@ import (
 	"os"
 	"runtime/debug"
 	"runtime/pprof"
+	"sort"
 	"strconv"
+	"strings"
 	"time"
 
 	"ddcheck/core"
@@ -57,29 +59,56 @@ func main() {
 		}
 		*prop = replayKey.Property
 	}
-	fn := props.Registry[*prop]
-	if fn == nil {
-		fmt.Printf("unknown property %q\n", *prop)
-		os.Exit(2)
+	ids := []string{*prop}
+	if *prop == "all" {
+		ids = ids[:0]
+		for id := range props.Registry {
+			ids = append(ids, id)
+		}
+		sort.Strings(ids)
+	} else if strings.Contains(*prop, ",") {
+		ids = strings.Split(*prop, ",")
 	}
-	started := time.Now()
-	rep := core.NewReport(*prop, *tier)
+	for _, id := range ids {
+		if props.Registry[id] == nil {
+			fmt.Printf("unknown property %q\n", id)
+			os.Exit(2)
+		}
+	}
+	// one load serves all requested properties (development matrices); each property gets
+	// its own report, evidence file and exit status, the process exits with the worst.
 	var prog *core.Program
+	var loadErr error
 	func() {
 		defer func() {
 			if e := recover(); e != nil {
-				rep.Fatal("analysis panic: %v\n%s", e, debug.Stack())
+				loadErr = fmt.Errorf("load panic: %v\n%s", e, debug.Stack())
 			}
 		}()
-		var err error
-		prog, err = core.Load(*repo)
-		if err != nil {
-			rep.Fatal("load: %v", err)
-			return
-		}
-		fn(prog, rep)
+		prog, loadErr = core.Load(*repo)
 	}()
-	code := rep.Finish(*verif, prog, started, seed)
+	code := 0
+	var rep *core.Report
+	for _, id := range ids {
+		started := time.Now()
+		rep = core.NewReport(id, *tier)
+		func() {
+			defer func() {
+				if e := recover(); e != nil {
+					rep.Fatal("analysis panic: %v\n%s", e, debug.Stack())
+				}
+			}()
+			if loadErr != nil {
+				rep.Fatal("load: %v", loadErr)
+				return
+			}
+			props.Prepare(prog)
+			props.Registry[id](prog, rep)
+		}()
+		if c := rep.Finish(*verif, prog, started, seed); c > code {
+			code = c
+		}
+	}
 	if *replay != "" && replayKey.Obligation != nil {
 		fmt.Printf("-- replay of %s %s:\n", replayKey.Obligation.Rule, replayKey.Obligation.Key)
 		found := false
